@@ -210,8 +210,11 @@ class SearchMonitor(object):
         if not self._supported(pattern) or len(string) > self.max_model_len or pos < 0:
             ctx.count("search_calls_outside_model")
             return
-        ctx.count("search_calls")
         text = target_text(string)
+        if set(text) - set("ACGTacgt"):
+            ctx.count("search_calls_outside_model")   # targets with ambiguity letters are outside C16's quantifier
+            return
+        ctx.count("search_calls")
         circular = (not linear) or isinstance(string, self.CircularRecord)
         kind = ("circular-record" if isinstance(string, self.CircularRecord) else
                 "record" if isinstance(string, SeqRecord) else "seq") + ("" if not circular or isinstance(string, self.CircularRecord) else "-nonlinear")
